@@ -1,4 +1,4 @@
-(* Par.v -- model of the multi-folder extraction paths of py7zr (py7zr/py7zr.py):
+(* Par.v -- model of the multi-folder extraction paths of py7zr (py7zr/py7zr.py; line numbers of the tree at commit 4e1c466):
 
      SevenZipFile._extract   l.619-631   parallel = not password_protected and not _filePassed
      Worker.extract          l.1272-1342 one folder: extract_single on the caller's handle;
